@@ -43,7 +43,7 @@ structure Inv (c : Cfg) (input : List Nat) (s : St) : Prop where
   noout : c.hasOut = false → s.out = [] ∧ s.got = [] ∧ s.cons = .done ∧ s.oclosed = false
   hasout : c.hasOut = true → s.seen = []
   done_wdone : c.hasOut = true → s.cons = .done → s.wdone = true
-  kst_wcancel : s.kst ≠ .waiting ↔ s.wcancel = true
+  kst_wcancel : s.kst ≠ .waiting → s.wcancel = true
   oclosed_kst : s.oclosed = true → s.kst = .exited
   nocloser : c.hasCloser = false → s.kst = .waiting
   wexited_why : 0 < s.wexited → s.pclosed = true ∨ s.wdone2 = true
